@@ -3,13 +3,17 @@
 
   The component formulas of every dimension-specific class are regenerated from the current
   source (Gen/Leaf.lean) and each well-typed entry is proved equal to the classical definition
-  in every differential ring (Gen/LeafThms.lean: `leaf_<Class>_<signature>`, plus
-  `fragment_total`: no entry of the supported fragment is missing or raises).  This file adds
-  the statements about the dispatcher model `Lower.lower`.
+  in every differential ring (Gen/LeafThms.lean: `leaf_<Class>_<signature>`, collected in the
+  uniform index `leaf_index`, plus `fragment_total`: no entry of the supported fragment is missing
+  or raises).  This file states the theorems about the dispatcher model `Lower.lower`; the main
+  one, `lower_sound`, is the structural induction that ties the leaf theorems together
+  (helpers: Lemmas/Lower.lean, LowerOps.lean, LowerLeaf.lean, LowerStep1.lean, LowerStep2.lean,
+  LowerInd.lean).
 -/
 import SympdeModel.Model.Lower
 import SympdeModel.Sem.DenG
 import SympdeModel.Gen.LeafThms
+import SympdeModel.Lemmas.LowerInd
 namespace Sympde.Lower
 open E
 
@@ -45,11 +49,134 @@ theorem lower_vf_den (S : DRing K) (d : Nat) (lg : Bool) (s : String) (k : Kind)
 theorem addV_scalar_den (S : DRing K) (a b : E) (ha : isMat a = false) (hb : isMat b = false)
     (hta : ∀ l, a ≠ tup l) (htb : ∀ l, b ≠ tup l) (i j : Nat) :
     ∃ t, addV a b = .ok t ∧ den S t i j = den S a i j + den S b i j := by
-  cases a <;> cases b <;> simp_all [addV, isMat, den, denSum]
+  have h : addV a b = .ok (add [a, b]) := by
+    cases a <;> cases b <;>
+      first
+      | rfl
+      | exact absurd rfl (hta _)
+      | exact absurd rfl (htb _)
+      | exact absurd ha (fun h => Bool.noConfusion h)
+      | exact absurd hb (fun h => Bool.noConfusion h)
+  exact ⟨_, h, by simp [den, denSum]⟩
 
 /-- a class that does not exist (e.g. `Outer_2d`, `Convect_3d`) is a `NameError`, never a value -/
 theorem unknown_class_refused (d : Nat) (cname : String) (args : List E) (h : classKnown cname = false) :
     applyLeaf d cname args = .error .nameError := by
   simp [applyLeaf, h]
+
+/-! ### the structural induction
+
+  **Fragment** (`WT d e`, decidable: `ty d e` computes the type — scalar `s`, vector `v`,
+  matrix `m` — or `none`; Lemmas/LowerInd.lean): numbers, constants, coordinates and parameters
+  (`sym`), scalar functions, vector functions and their components `F[i]`, non-empty n-ary sums of
+  terms of one type, non-empty n-ary products with at most one non-scalar factor (scalar multiples
+  of vectors and matrices, in any position), and the generic operators
+
+      grad  : s → v, v → m          div   : v → s, m → v        laplace : s → s, v → v
+      curl  : v → v (3D), v → s (2D)   rot : s → v (2D)          hessian : s → m
+      dot   : v·v → s, m·v → v, v·m → v     cross : v×v → v (3D), → s (2D)
+      inner : v:v → s, m:m → s              bracket : s,s → s (2D)
+
+  applied to *arbitrary* well-typed arguments of the fragment (operators nest to any depth, e.g.
+  `div(grad(x*f))`, `laplace(curl(F))`, `dot(grad(F), G)`), on mapped (`lg = false`, operators
+  dx dy dz) and unmapped (`lg = true`, dx1 dx2 dx3) domains of dimension 1, 2, 3.
+
+  **Statement**: whenever the dispatcher returns a value `t` for such an `e`, every component of
+  `t` equals the classical definition `denG` of `e` in every differential ring `S` (every choice of
+  smooth functions, at every point), and `t` has the shape of the type of `e`.
+
+  The components of a scalar are all `(i, j)` (both sides ignore the indices), of a vector
+  `(i, 0)` with `i < d`, of a matrix `(i, j)` with `i, j < d`.  The restriction to these indices is
+  necessary, not a weakness of the proof: outside them `den` of a `d×1` / `d×d` matrix node is `0`
+  by definition while `denG` keeps following the formula (`denG (grad f) 2 0` is `∂_z f` also when
+  `d = 2`), so "for all i j" is false for every vector- or matrix-valued expression.
+
+  Not covered (the typing gives `none`): `pow`, elementary functions, `Abs`, the interface
+  operators `minus`/`plus`/`jump`/`avg`/`dn`, literal `mat`/`tup`/`pd` nodes in the *input*,
+  `laplace`/`grad` of a matrix, `outer`, `convect` (no leaf class exists: `unknown_class_refused`),
+  products of two non-scalar factors (sympy's matrix product is not the entry-wise product `denG`
+  gives to `mul`), dimensions other than 1, 2, 3.  Whether the dispatcher returns a value at all
+  on the fragment is a different statement (it does not in dimension 1 for `grad(h) + F`:
+  known finding C01-1d-mixed); `Gen.fragment_total` states that no covered class is missing.
+-/
+
+/-- the covered fragment: the generic expressions `ty` gives a type to -/
+def WT (d : Nat) (e : E) : Bool := (ty d e).isSome
+
+/-- the components of the value of `e` in dimension `d` -/
+def Comp (d : Nat) (e : E) (i j : Nat) : Prop :=
+  match ty d e with
+  | some .s => True
+  | some .v => i < d ∧ j = 0
+  | some .m => i < d ∧ j < d
+  | none => False
+
+/-- **C01, main theorem.**  On the covered fragment, in dimension 1, 2 or 3, with physical or
+    logical operators: if lowering returns `t` then `t` denotes, component by component, the
+    classical meaning of `e` — in every differential ring. -/
+theorem lower_sound (S : DRing K) (d : Nat) (hd : d = 1 ∨ d = 2 ∨ d = 3) (lg : Bool) (e t : E)
+    (hwt : WT d e = true) (h : lower d lg e = .ok t) :
+    ∀ i j, Comp d e i j → den S t i j = denG S d lg e i j := by
+  intro i j hc
+  unfold WT at hwt
+  cases hτ : ty d e with
+  | none => rw [hτ] at hwt; cases hwt
+  | some τ =>
+    have g := lower_ty_sound S d hd lg e τ t hτ h
+    unfold Comp at hc
+    rw [hτ] at hc
+    cases τ with
+    | s =>
+      have hd1 : 1 ≤ d := by omega
+      rw [den_LS_free S t (hasShape_s_LS d t g.1) i j, g.2 0 0 (InR_zero_zero d hd1 _),
+        ty_indexFree S d lg e hτ i j]
+    | v => exact g.2 i j hc
+    | m => exact g.2 i j hc
+
+/-- … and the lowered value has the shape of the type: a scalar form (no matrix node), a `d×1`
+    column of scalar forms, a `d×d` matrix of scalar forms (in dimension 1 a vector or matrix may
+    also come back as a bare scalar form) -/
+theorem lower_shape (d : Nat) (hd : d = 1 ∨ d = 2 ∨ d = 3) (lg : Bool) (e t : E) (τ : Ty)
+    (hτ : ty d e = some τ) (h : lower d lg e = .ok t) : hasShape d τ t = true :=
+  lower_ty_shape d hd lg e τ t hτ h
+
+/-- the operator applications directly on atoms, for every (class, signature) pair of the
+    generated index, are instances: e.g. the gradient of a scalar function -/
+theorem lower_grad_atom_sound (S : DRing K) (d : Nat) (hd : d = 1 ∨ d = 2 ∨ d = 3) (lg : Bool)
+    (f : String) (k : Kind) (t : E) (h : lower d lg (op1 .grad (sf f k)) = .ok t) (i : Nat) (hi : i < d) :
+    den S t i 0 = Di S lg i (S.sf f) := by
+  have := lower_sound S d hd lg _ t (by simp [WT, ty, ty1]) h i 0 (by simp [Comp, ty, ty1, hi])
+  rw [this]
+  simp [denG, rank]
+
+/-! ### non-vacuity: the theorem applies to concrete expressions, and lowering does return a value -/
+
+example : WT 2 (op1 .grad (mul [sf "f" .h1, sf "g" .h1])) = true := by decide
+example : WT 2 (op1 .div (vf "F" .hdiv)) = true := by decide
+example : WT 3 (op1 .div (op1 .grad (mul [sym "x1", sf "f" .h1]))) = true := by decide
+example : WT 3 (op2 .dot (op1 .curl (vf "F" .hcurl)) (mul [sf "f" .h1, op1 .grad (sf "g" .h1)])) = true := by
+  decide
+example : WT 2 (pow (sf "f" .h1) (num 2 1)) = false := by decide
+
+set_option maxRecDepth 100000 in
+/-- grad(f g) in 2D: lowering returns the column of the two product-rule expressions, and each
+    component is the derivative of the product -/
+example (S : DRing K) :
+    ∃ t, lower 2 false (op1 .grad (mul [sf "f" .h1, sf "g" .h1])) = .ok t ∧
+      ∀ i, i < 2 → den S t i 0 = Di S false i (S.sf "f" * S.sf "g") := by
+  have h : lower 2 false (op1 .grad (mul [sf "f" .h1, sf "g" .h1])) = .ok _ := rfl
+  refine ⟨_, h, fun i hi => ?_⟩
+  rw [lower_sound S 2 (by decide) false _ _ (by decide) h i 0 (show i < 2 ∧ 0 = 0 from ⟨hi, rfl⟩)]
+  simp [denG, denGProd, rank, rankMax]
+
+set_option maxRecDepth 100000 in
+/-- div(F) in 2D -/
+example (S : DRing K) :
+    ∃ t, lower 2 false (op1 .div (vf "F" .hdiv)) = .ok t ∧
+      ∀ i j, den S t i j = S.D .x (S.vf "F" 0) + S.D .y (S.vf "F" 1) := by
+  have h : lower 2 false (op1 .div (vf "F" .hdiv)) = .ok _ := rfl
+  refine ⟨_, h, fun i j => ?_⟩
+  rw [lower_sound S 2 (by decide) false _ _ (by decide) h i j (show True from trivial)]
+  simp [denG, rank, DRing.sumN, Di, Coord.ofIdx]
 
 end Sympde.Lower
